@@ -1,5 +1,6 @@
 pub mod btor2_ref;
 pub mod bv;
 pub mod expr_eval;
+pub mod reach;
 pub mod sim;
 pub mod smt;
